@@ -50,6 +50,8 @@ def build_aut(inp):
             A.delete_vertex(e[1])
         elif e[0] == "rec":
             A.recurrent(inplace=True)
+        elif e[0] == "mult":           # the automaton of words whose length is a multiple of k (even_automaton for k = 2)
+            A = A.even_automaton() if e[1] == 2 and e[2] else A.automaton_multiple(e[1])
         elif e[0] == "ren":            # rename_generators in place
             A.rename_generators(_full_map(A, e[1]), inplace=True)
         elif e[0] == "ren_copy":       # ... or returning a renamed copy
@@ -76,6 +78,19 @@ def edited_graph(inp):
             g[e[1]][e[3]] = e[2]
         elif e[0] == "del" and e[1] in g:
             _drop(g, e[1])
+        elif e[0] == "mult":
+            # states reachable from the start vertices in steps of k edges; an edge per path of k edges, labelled by its word
+            k, new, todo = e[1], {}, [v for v in inp["aut"]["starts"] if v in g]
+            while todo:
+                v = todo.pop(0)
+                if v in new:
+                    continue
+                new[v] = {}
+                for w, end in ref_paths(g, v, k):
+                    new[v][w] = end
+                    if end not in new:
+                        todo.append(end)
+            g = new
         elif e[0] in ("ren", "ren_copy"):
             for v in g:
                 g[v] = {e[1].get(lab, lab): w for lab, w in g[v].items()}
@@ -144,6 +159,10 @@ def rand_edits(rng, j):
             used.add((t, l))
             pairs.append((t, h))
             edits.append(["add", t, h, l])
+    mk = rng.choice([2, 2, 3])
+    if rng.random() < 0.3 and all(len(l) == 1 for (_, l) in used) and (branching(j) + 1) ** mk * k <= 400:
+        edits = [e for e in edits if e[0] != "rec" or rng.random() < 0.5]
+        edits.append(["mult", mk, rng.random() < 0.5])
     return edits
 
 
@@ -170,7 +189,13 @@ def random_automaton(rng, kmax=8, lmax=4):
     verts = sorted({v for v, _ in graph} | {w for _, es in graph for _, w in es}) or [0]
     if not graph:
         graph = [[0, []]]
-    starts = [verts[0]] if rng.random() < 0.8 else sorted(rng.sample(verts, rng.randint(1, min(3, len(verts)))))
+    r = rng.random()
+    if r < 0.06:
+        starts = []             # an automaton without start vertices: start_state= / end_state= must still work
+    elif r < 0.8:
+        starts = [verts[0]]
+    else:
+        starts = sorted(rng.sample(verts, rng.randint(1, min(3, len(verts)))))
     return {"graph": graph, "starts": starts}
 
 
@@ -235,7 +260,7 @@ def nstates(j):
 def rand_calls(rng, j, same_options=True, ncalls=None):
     k = nstates(j)
     opt = {"maxlen": rng.random() < 0.5, "with_words": rng.random() < 0.7, "edge_words": rng.random() < 0.8}
-    direction = rng.choice(["default", "start", "end"])
+    direction = rng.choice(["default", "start", "end"] if j["starts"] else ["start", "end", "start", "end", "default"])
     calls = []
     for i in range(ncalls or rng.randint(1, 4)):
         if not same_options and i > 0:
@@ -364,7 +389,11 @@ def gen_acc(rng, n):
         spec = rep_spec_for(rng, {"graph": j["graph"] + [[0, [[e[3], 0]]] for e in edits if e[0] == "add"], "starts": j["starts"]},
                             drop=rng.random() < 0.05)      # (renamings permute / case-swap labels: same letters)
         if edits:
-            yield {"aut": j, "edits": edits, "spec": spec, "calls": rand_calls(rng, j)}
+            calls = rand_calls(rng, j)
+            mk = max([e[1] for e in edits if e[0] == "mult"] + [1])
+            for c in calls:
+                c["L"] = c["L"] // mk if mk > 1 else c["L"]
+            yield {"aut": j, "edits": edits, "spec": spec, "calls": calls}
             continue
         if rng.random() < 0.3:
             k = nstates(j)
@@ -635,7 +664,15 @@ def run_freeo(inp):
     want = sorted("".join(w) for l in lens for w in itertools.product(alph, repeat=l)
                   if all(w[i + 1] != H.swapcase(w[i]) for i in range(l - 1)))
     err = max([float(np.max(np.abs(m - rep[w]))) / (1 + H.norm_bound(rep, list(w))) for w, m in zip(ws, mats)] + [0.0])
-    return {"words": sorted(ws), "want": want, "err": err, "reduced": all(W.simplify_word(w) == w for w in ws),
+    # alternative entry points: the wrapped class and the explicit free automaton give the same enumeration
+    from geometry_tools import projective
+    pr = projective.ProjectiveRepresentation(rep)
+    t, ws_p = pr.freely_reduced_elements(inp["L"], maxlen=inp["maxlen"], with_words=True)
+    m_a, ws_a = rep.automaton_accepted(FSA.free_automaton(list(rep.asym_gens())), inp["L"], maxlen=inp["maxlen"], with_words=True)
+    cplx = lambda a: np.asarray(a, dtype=complex).tolist()
+    entry_ok = _same({"mats": cplx(np.swapaxes(np.asarray(t.matrix), -1, -2)), "words": list(ws_p)}, {"mats": cplx(mats), "words": list(ws)}) \
+        and _same({"mats": cplx(m_a), "words": list(ws_a)}, {"mats": cplx(mats), "words": list(ws)})
+    return {"words": sorted(ws), "want": want, "err": err, "reduced": all(W.simplify_word(w) == w for w in ws), "entry_ok": entry_ok,
             "fwl": sorted(rep.free_words_of_length(inp["L"])),
             "fwlt": sorted(rep.free_words_less_than(inp["L"])),
             "want_lt": sorted("".join(w) for l in range(inp["L"]) for w in itertools.product(alph, repeat=l)
@@ -651,6 +688,9 @@ def judge_freeo(inp, obs, lr):
         return {"expected": obs["want"][:40], "observed": obs["words"][:40], "tags": {"what": "freely reduced words, each once", "maxlen": inp["maxlen"]}}
     if not obs["err"] <= 1e-8:
         return {"expected": "images of the words", "observed": obs["err"], "tags": {"what": "images"}}
+    if not obs.get("entry_ok", True):
+        return {"expected": "ProjectiveRepresentation(rep).freely_reduced_elements and automaton_accepted(free_automaton(...)) give the same enumeration",
+                "observed": "different", "tags": {"what": "entry points"}}
     if obs["fwlt"] != obs["want_lt"]:
         # (the docstring says "inclusive", the name and the code say < length: either way each word at most once)
         return {"expected": obs["want_lt"][:40], "observed": obs["fwlt"][:40], "tags": {"what": "free_words_less_than: each freely reduced word of length < L once"}}
